@@ -820,3 +820,39 @@ pub fn covered(ver: Ver, cover: Cover, hash_type: u8, j: Option<usize>, coinbase
         },
     }
 }
+
+/// Names of all effecting / authorising fields a version can carry (the denominator of the
+/// C04 field-coverage figure).
+pub fn mutable_field_names(ver: Ver) -> Vec<&'static str> {
+    let mut v: Vec<&'static str> = vec!["lock_time", "vin.prevout_hash", "vin.prevout_n", "vin.script_sig", "vin.sequence", "vout.value", "vout.script"];
+    if ver.overwintered() {
+        v.push("expiry_height");
+    }
+    if ver.zip244() {
+        v.push("consensus_branch_id");
+    }
+    if ver.has_sprout() {
+        v.extend(js_layout(0).iter().map(|x| x.0));
+        v.extend(["joinsplit_pubkey", "joinsplit_sig"]);
+    }
+    if ver.has_sapling() {
+        v.extend([
+            "sapling.value_balance", "sapling.spend.cv", "sapling.spend.nf", "sapling.spend.rk", "sapling.spend.proof", "sapling.spend.auth_sig",
+            "sapling.output.cv", "sapling.output.cmu", "sapling.output.epk", "sapling.output.enc", "sapling.output.out", "sapling.output.proof", "sapling.binding_sig",
+        ]);
+        v.push(if ver.zip244() { "sapling.anchor" } else { "sapling.spend.anchor" });
+    }
+    if ver.has_orchard() {
+        v.extend([
+            "orchard.action.cv", "orchard.action.nf", "orchard.action.rk", "orchard.action.cmx", "orchard.action.epk", "orchard.action.enc", "orchard.action.out",
+            "orchard.flags", "orchard.value_balance", "orchard.anchor", "orchard.proof", "orchard.spend_auth_sig", "orchard.binding_sig",
+        ]);
+    }
+    if ver.has_ironwood() {
+        v.extend([
+            "ironwood.action.cv", "ironwood.action.nf", "ironwood.action.rk", "ironwood.action.cmx", "ironwood.action.epk", "ironwood.action.enc", "ironwood.action.out",
+            "ironwood.flags", "ironwood.value_balance", "ironwood.anchor", "ironwood.proof", "ironwood.spend_auth_sig", "ironwood.binding_sig",
+        ]);
+    }
+    v
+}
